@@ -1,5 +1,6 @@
 """The Ship (C07): a Valve query with engine app 2400 and default gathering settings, then the conversion that
 requires the ship fields, the players and the rules."""
+from props import malformed
 
 FAMILY = dict(
     send_units=3, name="theship", nargs=2, gen="theship", retries=1, port=0, decode_property="C07", entry="theship",
@@ -47,7 +48,7 @@ def c10_build(valid, unit, v, r, new_id):
             elif e == "F":
                 faults.append(True)
             elif e == "M":
-                newds.append(b"\xff\xff"); faults.append(False)
+                newds.append(malformed.CURRENT); faults.append(False)
             else:
                 newds += groups[k]
                 faults += [False] * (1 + ch[k])
